@@ -330,5 +330,71 @@ Record endpoint : Type := mkEp {
 `)
 		fmt.Printf("(* Command literals that are not registered in `api`: %s *)\n", strings.Join(unlisted, " "))
 		fmt.Printf("Definition api : list endpoint := [\n%s\n].\n", strings.Join(rows, ";\n"))
+
+		// noticeReadInterfaces (daemon/api_notices.go): notice type -> interfaces that let a snap read it over
+		// snapd-snap.socket; the keys are state.XxxNotice constants, resolved from overlord/state/notices.go
+		{
+			_, sf, _ := parseFile("overlord/state/notices.go")
+			ntypes := map[string]string{}
+			for _, d := range sf.Decls {
+				gd, ok := d.(*ast.GenDecl)
+				if !ok || gd.Tok != token.CONST {
+					continue
+				}
+				for _, sp := range gd.Specs {
+					vs := sp.(*ast.ValueSpec)
+					if id, ok := vs.Type.(*ast.Ident); !ok || id.Name != "NoticeType" {
+						continue
+					}
+					for i, n := range vs.Names {
+						if i < len(vs.Values) {
+							if bl, ok := vs.Values[i].(*ast.BasicLit); ok && bl.Kind == token.STRING {
+								v, _ := strconv.Unquote(bl.Value)
+								ntypes[n.Name] = v
+							}
+						}
+					}
+				}
+			}
+			_, nf, _ := parseFile("daemon/api_notices.go")
+			v := findVar(nf, "noticeReadInterfaces")
+			cl, ok := v.(*ast.CompositeLit)
+			if !ok {
+				die("noticeReadInterfaces is no longer a composite literal")
+			}
+			for _, fn := range []string{"noticeTypesViewableBySnap", "sanitizeNoticeTypesFilter"} {
+				if findFunc(nf, fn) == nil {
+					die("daemon/api_notices.go no longer has %s", fn)
+				}
+			}
+			var nrows []string
+			for _, x := range cl.Elts {
+				kv, ok := x.(*ast.KeyValueExpr)
+				if !ok {
+					die("noticeReadInterfaces: element is not key: value")
+				}
+				se, ok := kv.Key.(*ast.SelectorExpr)
+				if !ok {
+					die("noticeReadInterfaces: key is not state.<Const>")
+				}
+				tv, ok := ntypes[se.Sel.Name]
+				if !ok {
+					die("noticeReadInterfaces: unknown notice type constant %s", se.Sel.Name)
+				}
+				var items []string
+				for _, sv := range strList(kv.Value) {
+					items = append(items, coqBytes(sv))
+				}
+				nrows = append(nrows, fmt.Sprintf("  (%s, [%s])", coqBytes(tv), strings.Join(items, "; ")))
+			}
+			sort.Strings(nrows)
+			var all []string
+			for _, tv := range ntypes {
+				all = append(all, coqBytes(tv))
+			}
+			sort.Strings(all)
+			fmt.Printf("\n(* noticeReadInterfaces of daemon/api_notices.go, sorted by notice type *)\nDefinition notice_read_interfaces : list (bytes * list bytes) := [\n%s\n].\n", strings.Join(nrows, ";\n"))
+			fmt.Printf("(* every NoticeType constant of overlord/state/notices.go *)\nDefinition notice_types : list bytes := [%s].\n", strings.Join(all, "; "))
+		}
 	}
 }
